@@ -62,19 +62,23 @@ func (g *pacerGen) do(kind, opTerm string, f func() int64) (ret int64, panicked 
 	g.steps = append(g.steps, u.Pair(opTerm, u.App("PO", u.Z(ret), u.B(panicked), u.Z(b), u.Z(m), u.Z(l))))
 	g.trace = append(g.trace, opTerm)
 	g.dist[kind]++
-	if panicked && kind != "until" {
+	if panicked && kind == "until" {
+		g.monfail("pacer/time-until-send-div-zero", fmt.Sprintf("TimeUntilSend panics (division by zero) with bandwidth %d bit/s", g.vp.Bw))
+	} else if panicked {
 		g.monfail("pacer/panic", "panic in "+kind)
-	}
-	if panicked {
-		g.dist["until-panic-bw0"]++
 	}
 	return
 }
 
 // idealAdj = 1.25 x (bw/8) bytes per second as an exact rational numerator over 4.
+// (the pacing rate has a floor of 1 byte/s: it must never be 0, TimeUntilSend divides by it)
 func idealAdjTimes4(bw uint64) *big.Int {
 	x := new(big.Int).SetUint64(bw / 8)
-	return x.Mul(x, big.NewInt(5))
+	x.Mul(x, big.NewInt(5))
+	if x.Cmp(big.NewInt(4)) < 0 {
+		return big.NewInt(4)
+	}
+	return x
 }
 
 // idealBurst = max(10*mds, floor(1.25*bw/8 * 2ms))
